@@ -433,6 +433,7 @@ Section Denote.
 
   Lemma expr_inv i : expr i = true ->
     word_ok (i_svc i) = true /\ word_ok (i_route i) = true /\ gl (snd (hostpath (i_route i))) = true
+    /\ gl (lower (fst (hostpath (i_route i)))) = true
     /\ word_ok (i_dst i) = true /\ (exists u, canon (i_dst i) = Some u) /\ weight_ok pw (i_weight i) = true
     /\ tags_ok isp (i_tags i) = true /\ opts_ok isp (i_opts i) = true.
   Proof.
@@ -441,7 +442,7 @@ Section Denote.
     unfold F_C14_blocking in Hb. rewrite negb_involutive in Hb.
     repeat (apply andb_true_iff in Hb as [Hb ?]).
     assert (Hc : exists u, canon (i_dst i) = Some u) by (destruct (canon (i_dst i)); [eauto | discriminate]).
-    split; [unfold word_ok; now rewrite Hb, H6|]. split; [assumption|]. split; [assumption|]. split; [assumption|].
+    split; [unfold word_ok; now rewrite Hb, H7|]. split; [assumption|]. split; [assumption|]. split; [assumption|]. split; [assumption|].
     split; [exact Hc|]. split; [assumption|]. split; assumption.
   Qed.
 
@@ -450,7 +451,7 @@ Section Denote.
     exists d, intent_def pw i = Ok d /\ parse_line pw (render_intent isp i) = Ok (Some d)
               /\ ends_ns (render_intent isp i) = true.
   Proof.
-    intros H. destruct (expr_inv i H) as (Hs & Hr & Hg & Hd & Hc & Hw & Ht & Ho).
+    intros H. destruct (expr_inv i H) as (Hs & Hr & Hg & Hh & Hd & Hc & Hw & Ht & Ho).
     rewrite render_is_line by assumption.
     rewrite parse_line_of by (auto using owf_wopt, owf_topt, owf_oopt).
     rewrite parse_weight_wopt, parse_tags_topt, parse_opts_oopt by assumption.
@@ -465,7 +466,7 @@ Section Denote.
 
   Lemma render_lacks_nl i : expr i = true -> lacks 10 (render_intent isp i) = true.
   Proof.
-    intros H. destruct (expr_inv i H) as (Hs & Hr & Hg & Hd & Hc & Hw & Ht & Ho).
+    intros H. destruct (expr_inv i H) as (Hs & Hr & Hg & Hh & Hd & Hc & Hw & Ht & Ho).
     rewrite render_is_line by assumption. unfold line_of.
     assert (W : forall t, word_ok t = true -> lacks 10 t = true).
     { intros t Hwd. apply andb_true_iff in Hwd as [_ Hwd]. now apply space_free_lacks. }
@@ -564,12 +565,12 @@ Section TableDomain.
 
   Definition addable (d : def) : Prop :=
     d_cmd d = CmdAdd /\ d_src d <> [] /\ d_dst d <> [] /\ (exists u, canon (d_dst d) = Some u)
-    /\ gl (snd (hostpath (d_src d))) = true.
+    /\ gl (snd (hostpath (d_src d))) = true /\ gl (lower (fst (hostpath (d_src d)))) = true.
 
   Lemma add_route_ok t d : addable d -> exists t', add_route canon gl t d = Ok t'.
   Proof.
-    intros (Hc & Hs & Hd & [u Hu] & Hg). unfold add_route.
-    destruct (hostpath (d_src d)) as [h p]. cbn [snd] in Hg. rewrite Hu, Hg.
+    intros (Hc & Hs & Hd & [u Hu] & Hg & Hh). unfold add_route.
+    destruct (hostpath (d_src d)) as [h p]. cbn [fst snd] in Hg, Hh. rewrite Hu, Hg, Hh.
     destruct (d_src d); [congruence|]. destruct (d_dst d); [congruence|].
     destruct (lookup (lower h) t) as [rs0|]; [destruct (find p rs0)|]; eauto.
   Qed.
@@ -623,7 +624,7 @@ Section TableDomain.
 
   Lemma idef_addable i d : ex i = true -> idef i = Some d -> addable d.
   Proof.
-    intros H E. destruct (expr_inv isp pw canon gl i H) as (Hs & Hr & Hg & Hd & Hc & Hw & Ht & Ho).
+    intros H E. destruct (expr_inv isp pw canon gl i H) as (Hs & Hr & Hg & Hh & Hd & Hc & Hw & Ht & Ho).
     unfold idef, intent_def in E. destruct (parse_weight pw (Some (i_weight i))); try discriminate.
     inversion E; subst d. unfold addable. cbn [d_cmd d_src d_dst]. repeat split; auto.
     - intros E1. rewrite E1 in Hr. discriminate.
@@ -836,3 +837,18 @@ Theorem control_byte_tag_altered_refuted :
   /\ ex_parsed_tags reg_ctrl = Ok [[bs "a\x01b"]]
   /\ existsb (F_C14_altering all_print pweight_dec idcanon anyglob) (ex_intents reg_ctrl) = true.
 Proof. repeat split; vm_compute; reflexivity. Qed.
+
+(* since /repo c9fb527 a routing tag whose host does not compile as a glob is rejected by addRoute
+   ('route: invalid host.'): it no longer crashes lookups, it blocks every other service instead *)
+Definition reg_bad_host : reg := mkreg "bad" "10.0.0.2" 80 [bs "urlprefix-[X.com/"].
+Definition ex_glob (p : str) : bool := negb (beq p (bs "[x.com")).
+
+Theorem bad_host_blocks_all_refuted :
+  expressible all_print pweight_dec idcanon ex_glob env_dc pfx reg_good = true
+  /\ existsb (F_C14_blocking pweight_dec idcanon ex_glob) (ex_intents reg_bad_host) = true
+  /\ new_table pweight_dec idcanon ex_glob (ex_text [reg_good; reg_bad_host]) = Err e_invalid_host
+  /\ exists t, new_table pweight_dec idcanon ex_glob (ex_text [reg_good]) = Ok t /\ length (flat t) = 1%nat.
+Proof.
+  split; [vm_compute; reflexivity|]. split; [vm_compute; reflexivity|]. split; [vm_compute; reflexivity|].
+  eexists. split; vm_compute; reflexivity.
+Qed.
